@@ -17,6 +17,7 @@ import time
 
 VERIF = os.path.dirname(os.path.dirname(os.path.abspath(__file__)))
 PY = "/venv/bin/python"
+CHECK_HOME = os.environ.get("VERIF_SNAP") or VERIF
 S = "opfython/models/supervised.py"
 SS = "opfython/models/semi_supervised.py"
 KN = "opfython/models/knn_supervised.py"
@@ -114,7 +115,7 @@ def main():
             verdicts = []
             for c in checks:
                 t0 = time.time()
-                rc, o = sh("%s/check %s" % (VERIF, c), cwd=VERIF, env={"VERIF_REPO": wt})
+                rc, o = sh("%s/check %s" % (CHECK_HOME, c), cwd=CHECK_HOME, env={"VERIF_REPO": wt})
                 expl = [l for l in o.splitlines() if l.startswith("# ")]
                 verdicts.append("%s:%s(%.0fs)" % (c, {0: "silent", 1: "VIOLATION", 2: "HARNESS-ERROR"}.get(rc, rc),
                                                   time.time() - t0))
